@@ -228,6 +228,42 @@ func c20Units(c *Ctx, p *Prog) {
 		b, _ := new(big.Int).SetString(kv.V.ExactString(), 10)
 		units2[constant.StringVal(kv.K)] = b
 	}
+	// the minus sign is written on every way out: the branch that stores '-' for a negative duration belongs to a test
+	// that dominates every return of the formatter (an early return from one style would print |d| for -d)
+	{
+		var signIf *ssa.BasicBlock
+		for _, b := range sdf.Blocks {
+			for _, in := range b.Instrs {
+				st, ok := in.(*ssa.Store)
+				if !ok {
+					continue
+				}
+				if k, isC := constInt(st.Val); !isC || k != '-' {
+					continue
+				}
+				if _, isIA := st.Addr.(*ssa.IndexAddr); !isIA {
+					continue
+				}
+				if gs := guardsOf(b); len(gs) > 0 {
+					signIf = gs[len(gs)-1].If.Block()
+				}
+			}
+		}
+		if signIf == nil {
+			r.Unk("R20.2", "sign:every-exit", p.FuncPos(sdf), "no guarded store of '-' found in the formatter")
+		} else {
+			rets, _ := exitBlocks(sdf)
+			var early []string
+			for _, rb := range rets {
+				if !signIf.Dominates(rb) {
+					early = append(early, p.Pos(instrPos(rb.Instrs[len(rb.Instrs)-1])))
+				}
+			}
+			sort.Strings(early)
+			r.Check(len(early) == 0, "R20.2", "sign:every-exit", p.Pos(instrPos(signIf.Instrs[len(signIf.Instrs)-1])), "every return of the formatter comes after the sign step",
+				"the formatter can return (at "+strings.Join(early, ", ")+") without passing the step that writes '-' for a negative duration: such durations are printed as their absolute value and parse back to another duration")
+		}
+	}
 	fmtInt := p.Func(p.Times, "fmtInt")
 	// a component is printed exactly when IT is non-zero: the innermost "x > 0" test around a digit writer tests the
 	// value that is written (sibling blocks copied from one another keep the neighbour's test otherwise)
